@@ -26,6 +26,12 @@ var c10Pool = []string{
 	"QS EQU QS+1 ; DB 1 ; MOV AL,QS ; MOV AL,QS ; MOV AL,QS ; MOV AL,QS",
 	// ... such as this chain of EQUs, 30 deep
 	c10Chain(30),
+	// one name with a different meaning in each program: an EQU whose value is
+	// a (forward) label and so does not reduce in pass 1, a numeric EQU, a
+	// label.  Whatever an assembly remembers about the name must not survive it.
+	"QV EQU qlbl ; MOV AX,QV ; qlbl: ; HLT",
+	"QV EQU 0x12 ; MOV AL,QV ; MOV BX,QV+1 ; HLT",
+	"ORG 0x100 ; NOP ; QV: ; MOV AX,QV ; JMP QV",
 }
 
 func c10Chain(n int) string {
